@@ -91,7 +91,27 @@ FULL = HEAD + BODY
 
 
 def build_model():
-    return fw.ocaml_model("C18", ["Model/Timeouts.vo"])
+    # the framework's stamp follows the dependency file, which can lag behind a regenerated Generated/*.v;
+    # hash the sources of the runner here as well and force a rebuild when they changed
+    import hashlib
+    h = hashlib.sha256()
+    for rel in ("coq/Generated/TimeoutsGen.v", "coq/Model/Timeouts.v", "coq/Extract/C18.v", "ocaml/C18/driver.ml"):
+        try:
+            h.update(open(os.path.join(fw.VERIF, rel), "rb").read())
+        except FileNotFoundError:
+            h.update(b"<missing>")
+    own = os.path.join(fw.VERIF, "ocaml", "C18", ".stamp-c18")
+    old = open(own).read() if os.path.exists(own) else ""
+    if old != h.hexdigest():
+        try:
+            os.remove(os.path.join(fw.VERIF, "ocaml", "C18", ".stamp"))
+        except FileNotFoundError:
+            pass
+    ok, exe = fw.ocaml_model("C18", ["Model/Timeouts.vo"])
+    if ok:
+        with open(own, "w") as f:
+            f.write(h.hexdigest())
+    return ok, exe
 
 
 # --------------------------------------------------------------------------------------------
@@ -236,9 +256,13 @@ class World:
 
         def sec(x):
             return None if x is None else x / TPS
-        tmo = aiohttp.ClientTimeout(total=sec(cfg.get("total")), connect=sec(cfg.get("connect")),
-                                    sock_connect=sec(cfg.get("sock_connect")), sock_read=sec(cfg.get("sock_read")),
-                                    ceil_threshold=cfg.get("thr", 5 * TPS) / TPS)
+        try:
+            tmo = aiohttp.ClientTimeout(total=sec(cfg.get("total")), connect=sec(cfg.get("connect")),
+                                        sock_connect=sec(cfg.get("sock_connect")), sock_read=sec(cfg.get("sock_read")),
+                                        ceil_threshold=cfg.get("thr", 5 * TPS) / TPS)
+        except Exception as e:  # noqa
+            self.outcome[t] = ("error:" + type(e).__name__, self.tick())
+            return
         self.eff_total[t] = None if tmo.total is None else round(tmo.total * TPS)
         body = b"x" * 70000 if cfg.get("block") else None
         in_read = False
